@@ -278,3 +278,38 @@ fn ws_exchange_inner(port: u16, frames: Vec<Frame>, wait_ms: u64, until: Option<
     }
     Ok(out)
 }
+
+
+// ------------------------------------------------------------------ a WebSocket client made by hand
+// The `ws` library refuses to send what a misbehaving (or merely different) client can send: close frames with codes
+// it considers invalid, text frames that are no UTF-8. These few functions speak the protocol over a TcpStream.
+
+pub fn raw_ws_connect(port: u16) -> Result<std::net::TcpStream, String> {
+    use std::io::{Read, Write};
+    let mut s = std::net::TcpStream::connect(("127.0.0.1", port)).map_err(|e| e.to_string())?;
+    s.set_read_timeout(Some(std::time::Duration::from_millis(5000))).ok();
+    let req = format!("GET / HTTP/1.1\r\nHost: 127.0.0.1:{}\r\nUpgrade: websocket\r\nConnection: Upgrade\r\nSec-WebSocket-Key: dGhlIHNhbXBsZSBub25jZQ==\r\nSec-WebSocket-Version: 13\r\n\r\n", port);
+    s.write_all(req.as_bytes()).map_err(|e| e.to_string())?;
+    let mut got = Vec::new();
+    let mut buf = [0u8; 1];
+    while !got.ends_with(b"\r\n\r\n") {
+        match s.read(&mut buf) {
+            Ok(1) => got.push(buf[0]),
+            _ => return Err(format!("handshake not answered: {:?}", String::from_utf8_lossy(&got))),
+        }
+    }
+    if !String::from_utf8_lossy(&got).starts_with("HTTP/1.1 101") {
+        return Err(format!("handshake refused: {:?}", String::from_utf8_lossy(&got)));
+    }
+    Ok(s)
+}
+
+/// one masked frame (clients must mask); payloads below 126 bytes only
+pub fn raw_ws_frame(opcode: u8, payload: &[u8]) -> Vec<u8> {
+    assert!(payload.len() < 126);
+    let mask = [0x11u8, 0x22, 0x33, 0x44];
+    let mut f = vec![0x80 | opcode, 0x80 | payload.len() as u8];
+    f.extend_from_slice(&mask);
+    f.extend(payload.iter().enumerate().map(|(i, b)| b ^ mask[i % 4]));
+    f
+}
